@@ -169,6 +169,204 @@ fn chord_repeat_pause(r: &mut Rng, thorough: bool, lines: &mut Vec<String>) {
     }
 }
 
+
+// ---- t5 begin: families (7) and (8) -------------------------------------------------------------
+/// Family (7): `one-shot-pause-processing` inside the oracle's fragment (base layer of one-shot keys,
+/// plain keys and pause keys only), so that the "exactly the next key" oracle judges these runs:
+/// `(defsrc a b d e f)`: a, b one-shot keys (key / output chord), d e plain, f = pause P.
+/// The pause key long BEFORE the one-shot key (a window that ran out must not touch a later
+/// one-shot), shortly before it, and while it is active at every offset around P.
+fn pause_fragment(r: &mut Rng, thorough: bool, lines: &mut Vec<String>) {
+    let ks: Vec<u16> = ["a", "b", "d", "e", "f"].iter().map(|k| code(k)).collect();
+    let (ka, kb, kd, ke, kf) = (ks[0], ks[1], ks[2], ks[3], ks[4]);
+    for variant in 0..4 {
+        for (ci, (t, p)) in [(500u32, 50u32), (10, 3), (500, 20)].into_iter().enumerate() {
+            let red = if (variant + ci) % 3 == 2 { Some(0u16) } else { None };
+            let mut cfg = String::from("(defcfg");
+            if let Some(d) = red {
+                cfg.push_str(&format!(" rapid-event-delay {d}"));
+            }
+            let v = VARIANT[variant];
+            cfg.push_str(&format!(
+                ")\n(defsrc a b d e f)\n(deflayer l0 ({v} {t} lsft) ({v} {t} C-lalt) d e (one-shot-pause-processing {p}))\n"
+            ));
+            let tail = t + 200;
+            for os in [ka, kb] {
+                // pause, a gap, one-shot key, first key, second key
+                for g0 in [0u32, 1, p + 1, p + 100, 1000] {
+                    for g1 in [1u32, 9] {
+                        for g2 in [2u32, 10, 100] {
+                            let mut h = vec![];
+                            tap(&mut h, kf, 1, g0);
+                            tap(&mut h, os, 1, g1);
+                            tap(&mut h, kd, 1, g2);
+                            tap(&mut h, ke, 1, 2);
+                            h.push(HEv::Tick(tail));
+                            lines.push(mk_line("LAY", false, &cfg, &h));
+                        }
+                    }
+                }
+                // one-shot key, pause while it is active, keys inside / on the edge of / after the window
+                for g in [0u32, 1, p - 1, p, p + 1, p + 80] {
+                    let mut h = vec![];
+                    tap(&mut h, os, 1, 1);
+                    tap(&mut h, kf, 1, g);
+                    tap(&mut h, kd, 1, 2);
+                    tap(&mut h, ke, 1, 2);
+                    h.push(HEv::Tick(tail));
+                    lines.push(mk_line("LAY", false, &cfg, &h));
+                }
+            }
+            for _ in 0..(if thorough { 200 } else { 10 }) {
+                let n_ev = r.range(4, 14) as usize;
+                let h = consistent_history(r, &ks, n_ev, &[0, 1, 1, 2, p - 1, p, p + 1, t - 1, t, t + p + 90], tail);
+                lines.push(mk_line("LAY", false, &cfg, &h));
+            }
+        }
+    }
+}
+
+/// Family (8): a one-shot activated by something that is not a key of the layer - a chords v2 chord
+/// whose action is a one-shot key.  Its action reaches the layout through the action queue, not the
+/// input queue, at every offset after the first following key of an earlier one-shot (so also inside
+/// the few ticks in which that one-shot's release is outstanding).
+/// `(defsrc a b c d e f)`: a, b one-shot keys (lsft / lctl), c d plain, chord (e f) = one-shot lalt.
+fn chord_one_shot(r: &mut Rng, thorough: bool, lines: &mut Vec<String>) {
+    let ks: Vec<u16> = ["a", "b", "c", "d", "e", "f"].iter().map(|k| code(k)).collect();
+    let (ka, kb, kc, kd, ke, kf) = (ks[0], ks[1], ks[2], ks[3], ks[4], ks[5]);
+    for variant in 0..4 {
+        for (ci, t) in [500u32, 60].into_iter().enumerate() {
+            let red = if (variant + ci) % 3 == 2 { Some(1u16) } else { None };
+            let rel = if (variant + ci) % 2 == 0 { "first-release" } else { "all-released" };
+            let mut cfg = String::from("(defcfg concurrent-tap-hold yes");
+            if let Some(d) = red {
+                cfg.push_str(&format!(" rapid-event-delay {d}"));
+            }
+            let v = VARIANT[variant];
+            cfg.push_str(&format!(
+                ")\n(defsrc a b c d e f)\n(deflayer l0 ({v} {t} lsft) ({v} {t} lctl) c d e f)\n(defchordsv2 (e f) ({v} {t} lalt) 35 {rel} ())\n"
+            ));
+            let tail = t + 300;
+            for os in [ka, kb] {
+                for g in [0u32, 1, 2, 3, 4, 5, 6, 7, 10, 40] {
+                    for chord_gap in [0u32, 1] {
+                        // one-shot key, first key c, the chord g ticks later, second key d
+                        let mut h = vec![];
+                        tap(&mut h, os, 10, 10);
+                        h.push(HEv::Press(0, kc));
+                        if g > 0 {
+                            h.push(HEv::Tick(g));
+                        }
+                        h.push(HEv::Press(0, ke));
+                        if chord_gap > 0 {
+                            h.push(HEv::Tick(chord_gap));
+                        }
+                        h.push(HEv::Press(0, kf));
+                        h.push(HEv::Tick(20));
+                        h.push(HEv::Release(0, kc));
+                        h.push(HEv::Release(0, ke));
+                        h.push(HEv::Release(0, kf));
+                        h.push(HEv::Tick(if t > 200 { 100 } else { 20 }));
+                        tap(&mut h, kd, 10, 0);
+                        h.push(HEv::Tick(tail));
+                        lines.push(mk_line("LAY", false, &cfg, &h));
+                    }
+                }
+                // the chord first, then the one-shot key, then two keys
+                for g in [0u32, 1, 5, 40] {
+                    let mut h = vec![];
+                    h.push(HEv::Press(0, ke));
+                    h.push(HEv::Press(0, kf));
+                    h.push(HEv::Tick(10));
+                    h.push(HEv::Release(0, ke));
+                    h.push(HEv::Release(0, kf));
+                    h.push(HEv::Tick(g));
+                    tap(&mut h, os, 2, 3);
+                    tap(&mut h, kc, 2, 12);
+                    tap(&mut h, kd, 2, 2);
+                    h.push(HEv::Tick(tail));
+                    lines.push(mk_line("LAY", false, &cfg, &h));
+                }
+            }
+            for _ in 0..(if thorough { 120 } else { 6 }) {
+                let n_ev = r.range(4, 12) as usize;
+                let h = consistent_history(r, &ks, n_ev, &[0, 1, 2, 5, 6, 12, 40], tail);
+                lines.push(mk_line("LAY", false, &cfg, &h));
+            }
+        }
+    }
+}
+/// Family (9): a key that does nothing as one of the following keys - `XX` in the base layer
+/// (position g; the one-shot layer holds `_` there, so it is reached through a transparent entry while
+/// a layer one-shot is active) and an unmapped position (z, with `block-unmapped-keys yes`).
+/// `do_action`'s `NoOp` arm reports such a press to the one-shot state like every other key: it is
+/// "the first following non-one-shot key".  Crafted: one-shot key, the XX key at every gap, then two
+/// plain keys; exhaustive: every schedule over the one-shot key, the XX key and a plain key.
+fn noop_following(thorough: bool, seed: u64, lines: &mut Vec<String>) {
+    let (ka, kd, ke, kg, kz) = (code("a"), code("d"), code("e"), code("g"), code("z"));
+    let mut ci = 0usize;
+    for variant in 0..4 {
+        for t in [3u32, 10, 500] {
+            for red in [None, Some(0u16), Some(1)] {
+                for kind in 0..3 {
+                    ci += 1;
+                    let mut layer_used = false;
+                    let os = os_text(&Os { kind, variant, t }, 0, &mut layer_used);
+                    let unmapped = ci % 4 == 0;
+                    let mut cfg = String::from("(defcfg");
+                    if let Some(d) = red {
+                        cfg.push_str(&format!(" rapid-event-delay {d}"));
+                    }
+                    if unmapped {
+                        cfg.push_str(" block-unmapped-keys yes");
+                    }
+                    cfg.push_str(&format!(")\n(defsrc a d e g)\n(deflayer l0 {os} d e XX)\n(deflayer l1 _ x y _)\n"));
+                    let kx = if unmapped { kz } else { kg };
+                    for g1 in [0u32, 1, t - 1] {
+                        for g2 in [0u32, 1, 5, 6] {
+                            for xhold in [0u32, 2] {
+                                let mut h = vec![];
+                                tap(&mut h, ka, 1, g1);
+                                tap(&mut h, kx, xhold, g2);
+                                tap(&mut h, kd, 2, 6);
+                                tap(&mut h, ke, 2, 1);
+                                h.push(HEv::Tick(t + 40));
+                                lines.push(mk_line("LAY", false, &cfg, &h));
+                            }
+                        }
+                    }
+                    // the XX key held across the plain key (release variants: its release ends the one-shot)
+                    let mut h = vec![];
+                    tap(&mut h, ka, 1, 1);
+                    h.push(HEv::Press(0, kx));
+                    h.push(HEv::Tick(1));
+                    h.push(HEv::Press(0, kd));
+                    h.push(HEv::Tick(1));
+                    h.push(HEv::Release(0, kx));
+                    h.push(HEv::Tick(2));
+                    h.push(HEv::Release(0, kd));
+                    h.push(HEv::Tick(1));
+                    tap(&mut h, ke, 2, 1);
+                    h.push(HEv::Tick(t + 40));
+                    lines.push(mk_line("LAY", false, &cfg, &h));
+                    let small: Vec<u32> = vec![0, 1, t];
+                    if thorough || ci % 6 == (seed as usize) % 6 {
+                        for h in all_histories(&[ka, kx, kd], 3, &small, t + 40) {
+                            lines.push(mk_line("LAY", false, &cfg, &h));
+                        }
+                    }
+                    if (thorough && ci % 3 == (seed as usize) % 3) || ci % 36 == (seed as usize) % 36 {
+                        for h in all_histories(&[ka, kx, kd], 4, &[0, t], t + 40) {
+                            lines.push(mk_line("LAY", false, &cfg, &h));
+                        }
+                    }
+                }
+            }
+        }
+    }
+}
+// ---- t5 end ---------------------------------------------------------------------------------------
+
 pub fn gen(tier: &str, seed: u64) -> Vec<String> {
     let mut r = Rng::new(seed ^ 0xC06);
     let thorough = tier == "thorough";
@@ -177,6 +375,9 @@ pub fn gen(tier: &str, seed: u64) -> Vec<String> {
         // only the families that were added to reach otherwise unexecuted code (debugging aid;
         // "covt" = their thorough-tier size)
         chord_repeat_pause(&mut r, tier == "covt", &mut lines);
+        pause_fragment(&mut r, tier == "covt", &mut lines); // t5
+        chord_one_shot(&mut r, tier == "covt", &mut lines); // t5
+        noop_following(tier == "covt", seed, &mut lines); // t5
         return lines;
     }
     let (ka, kb, kc, kd, ke) = (code("a"), code("b"), code("c"), code("d"), code("e"));
@@ -417,5 +618,10 @@ pub fn gen(tier: &str, seed: u64) -> Vec<String> {
     }
     // (6) output chords and rpt-any under an active one-shot; one-shot-pause-processing
     chord_repeat_pause(&mut r, thorough, &mut lines);
+    // (7) pause keys inside the oracle's fragment, (8) a one-shot activated by a chords v2 chord (t5)
+    pause_fragment(&mut r, thorough, &mut lines);
+    chord_one_shot(&mut r, thorough, &mut lines);
+    // (9) an XX key / an unmapped position as a following key (t5, seeded change C06g)
+    noop_following(thorough, seed, &mut lines);
     lines
 }
